@@ -474,6 +474,126 @@ def replay_c_aead(inputs):
     return {"reproduced": rc not in (0, None), "msg": ("compiled AEAD vs reference: " + last[:300]) if rc else "", "why": out[-600:], "script": script}
 
 
+def c_hp_apply():
+    """HeaderProtection_apply on the LLVM IR: with mask = F(sample) an arbitrary (ideal) cipher output,
+    the returned packet is header || payload with exactly the low 4 (long header) / 5 (short header)
+    bits of byte 0 XORed with mask[0] and the pn_length packet-number bytes XORed with mask[1..];
+    the sample is the 16 bytes starting 4 bytes after the start of the packet number (RFC 9001 s5.4.2)"""
+
+    def run():
+        import z3
+
+        from .. import cmodel as C
+        from ..ll2smt import Ptr, bv
+
+        fname = "@HeaderProtection_apply"
+        ex, paths, ctx = C.run_crypto_fn(fname)
+        hl, pl = ex.inputs["arg0_len"], ex.inputs["arg1_len"]
+        viols, samples, nchecks, returning = [], [], 0, 0
+
+        def fail(pc, extra, msg):
+            vals = {"_fn": fname}
+            if ex.check(*(pc + extra)) == z3.sat:
+                m = ex.solver.model()
+                for n, t in ex.inputs.items():
+                    vals[n] = m.eval(t, model_completion=True).as_long()
+            viols.append({"msg": "HeaderProtection_apply: " + msg, "site": "HeaderProtection_apply", "inputs": vals})
+
+        for p in paths:
+            if p.exc is not None or not [r for r in p.results if r[0] == "bytes"]:
+                continue
+            returning += 1
+            pc = list(p.cond)
+            co = [c for c in p.calls if c[0] == "cipher_out"]
+            upd = [c for c in p.calls if c[0] == "EVP_CipherUpdate"]
+            ini = [c for c in p.calls if c[0] == "EVP_CipherInit_ex"]
+            hobj, pobj = C.final_obj(p, "arg0"), C.final_obj(p, "arg1")
+            if not co or hobj is None or pobj is None:
+                fail(pc, [], "a protected packet is returned without computing a mask")
+                continue
+            mask = co[-1][1]
+            H = lambda j: z3.Select(hobj.arr, j)
+            P = lambda j: z3.Select(pobj.arr, j)
+            b0 = H(bv(0, 64))
+            pnl = z3.ZeroExt(56, b0 & 3) + 1
+            pno = hl - pnl
+            # where the sample is taken: payload + 4 - pn_length, 16 bytes (AES: cipher input; ChaCha20: counter||nonce)
+            sp = ini[-1][2] if ini else upd[-1][2]
+            if not (isinstance(sp, Ptr) and sp.obj is not None and sp.obj.name == "arg1"):
+                fail(pc, [], "the mask is not computed from a sample of the payload argument")
+                continue
+            nchecks += 1
+            cond = sp.off == bv(4, 64) - pnl
+            if not ini:
+                cond = z3.And(cond, upd[-1][3] == 16)
+            r = ex.check(*(pc + [z3.Not(cond)]))
+            if r != z3.unsat:
+                (fail(pc, [z3.Not(cond)], "the sample is not the 16 bytes at packet-number offset + 4") if r == z3.sat else ex.inconclusive.append("solver unknown: sample position"))
+            _, ptr, n, arr = [r for r in p.results if r[0] == "bytes"][-1]
+            j = z3.BitVec("j!spec", 64)
+            first = b0 ^ (z3.Select(mask, bv(0, 64)) & z3.If((b0 & 0x80) != 0, z3.BitVecVal(0x0F, 8), z3.BitVecVal(0x1F, 8)))
+            mk = z3.Select(mask, j - pno + 1)
+            spec = z3.If(j == 0, z3.If(pno == 0, first ^ mk, first), z3.If(z3.ULT(j, hl), z3.If(z3.UGE(j, pno), H(j) ^ mk, H(j)), P(j - hl)))
+            got = z3.Select(arr, ptr.off + j)
+            nchecks += 2
+            r = ex.check(*(pc + [z3.Not(n == hl + pl)]))
+            if r != z3.unsat:
+                (fail(pc, [z3.Not(n == hl + pl)], "result length is not header + payload") if r == z3.sat else ex.inconclusive.append("solver unknown: length"))
+            r = ex.check(*(pc + [z3.ULT(j, hl + pl), got != spec]))
+            if r == z3.sat:
+                jj = ex.solver.model().eval(j, model_completion=True).as_long()
+                fail(pc, [z3.ULT(j, hl + pl), got != spec], "byte %d of the protected packet is not header||payload with the RFC 9001 s5.4.1 mask applied" % jj)
+            elif r != z3.unsat:
+                ex.inconclusive.append("solver unknown: byte equality")
+            if len(samples) < 2:
+                samples.append({"function": "HeaderProtection_apply", "path_outcome": "returns", "external_calls": [c[0] for c in p.calls][:8]})
+        if not returning:
+            ex.inconclusive.append("vacuous: no returning path")
+        return {"paths": len(paths), "paths_with_checks": returning, "queries": ex.queries, "solver_time": ex.solver_time, "violations": viols, "inconclusive": sorted(set(ex.inconclusive)), "samples": samples, "exhaustive": not ex.inconclusive, "functional_conditions_checked": nchecks}
+
+    return run
+
+
+def replay_c_hp(inputs):
+    """differential replay: compiled HeaderProtection (working tree build) against AES-ECB from the
+    `cryptography` package with the RFC 9001 s5.4 arithmetic, on the solver's lengths / first byte"""
+    from .. import cmodel as C
+
+    g = inputs.get
+    hl = max(1, min(g("arg0_len", 20), 1400))
+    pl = max(20, min(g("arg1_len", 40), 1500 - hl))
+    b0 = g("arg0_byte0", 0x43)
+    script = (
+        "from aioquic._crypto import HeaderProtection, CryptoError\n"
+        "from cryptography.hazmat.primitives.ciphers import Cipher, algorithms, modes\n"
+        "key = bytes(range(16)); bad = []\n"
+        "for first in (%d, 0xc0, 0xc3, 0x40, 0x43, 0x41):\n"
+        " for seed in range(8):\n"
+        "  for hl in sorted({%d, 5, 23}):\n"
+        "    pnl = (first & 3) + 1\n"
+        "    if hl < pnl: continue\n"
+        "    header = bytes([first]) + bytes((5 * i + 3) & 255 for i in range(hl - 1)); payload = bytes((11 * i + 7 + 37 * seed * (i + 1)) & 255 for i in range(%d))\n"
+        "    sample = payload[4 - pnl:20 - pnl]\n"
+        "    e = Cipher(algorithms.AES(key), modes.ECB()).encryptor(); mask = e.update(sample)\n"
+        "    ref = bytearray(header + payload); ref[0] ^= mask[0] & (0x0f if first & 0x80 else 0x1f)\n"
+        "    for i in range(pnl): ref[hl - pnl + i] ^= mask[1 + i]\n"
+        "    hp = HeaderProtection(b'aes-128-ecb', key)\n"
+        "    try:\n"
+        "        out = hp.apply(header, payload)\n"
+        "    except CryptoError as ex:\n"
+        "        out = ex\n"
+        "    if out != bytes(ref): bad.append('apply(first=%%#x, header_len=%%d) differs from RFC 9001 s5.4' %% (first, hl))\n"
+        "    else:\n"
+        "        back = hp.remove(out, hl - pnl)\n"
+        "        if back[0] != header or back[1] != int.from_bytes(header[hl - pnl:], 'big'): bad.append('remove(apply()) does not give the header back')\n"
+        "print(bad)\n"
+        "assert not bad, bad\n"
+    ) % (b0, hl, pl)
+    rc, out = C.run_plain(script)
+    last = out.strip().splitlines()[-1] if out.strip() else ""
+    return {"reproduced": rc not in (0, None), "msg": ("compiled HeaderProtection vs reference: " + last[:300]) if rc else "", "why": out[-600:], "script": script}
+
+
 def obligations(tier):
     obs = []
     for bits in (8, 16, 24, 32):
@@ -485,6 +605,7 @@ def obligations(tier):
     from . import c05
 
     obs.append(Ob("C02.drop.server_first_flight", forged_then_genuine(), c05.hdr_shims, ["aioquic.quic.connection.QuicConnection.receive_datagram", "aioquic.quic.connection.QuicConnection._initialize"], bounds="first Initial with any alteration of its 8 destination-CID bytes, or any other alteration (authentication failure), followed by the genuine Initial", stubs=["CryptoPair -> transparent; Initial keys open only packets protected under the same destination CID", "tls.Context -> stub"], budget_s=300))
+    obs.append(Ob("C02.c.HeaderProtection_apply", c_hp_apply(), kind="custom", replay_fn=replay_c_hp, encoded=["_crypto.c:HeaderProtection_apply, HeaderProtection_mask (LLVM IR, clang -O1)"], bounds="arbitrary object state (AES and ChaCha20 modes), header and payload arguments of any length and content accepted by the function's own checks, every byte position of the result (free index variable)", outside="the cipher (mask = arbitrary 5+ bytes: ideal); HeaderProtection_remove has memory-safety obligations only (C04) and is exercised by the differential replay", stubs=["EVP_* -> contract stubs recording their arguments"], budget_s=600))
     for fn in ("@AEAD_encrypt", "@AEAD_decrypt"):
         obs.append(Ob("C02.c.%s" % fn[1:], c_aead(fn), kind="custom", replay_fn=replay_c_aead, encoded=["_crypto.c:%s (LLVM IR, clang -O1)" % fn[1:]], bounds="arbitrary object state (any iv, key), any 64-bit packet number, payload argument of any length <= 2^40, header argument of any length < 2^31; every path of the function", outside="the cipher itself (OpenSSL contract stubs: ideal AEAD); AEAD_init / key installation (C02.glue.*)", stubs=["EVP_* -> contract stubs recording their arguments"], budget_s=600))
     return obs
